@@ -9,7 +9,7 @@ use std::rc::Rc;
 
 use clvmr::allocator::{Allocator, NodePtr, SExp as CSExp};
 use clvmr::chia_dialect::{ChiaDialect, ENABLE_KECCAK_OPS_OUTSIDE_GUARD, NO_UNKNOWN_OPS};
-use clvmr::serde::{node_from_bytes, node_to_bytes};
+use clvmr::serde::{node_from_bytes, node_to_bytes_limit};
 use serde_json::{json, Value as J};
 
 // ------------------------------------------------------------------------------------------------
@@ -204,7 +204,7 @@ impl V {
     pub fn ser(&self) -> Vec<u8> {
         let mut a = Allocator::new();
         let n = self.to_node(&mut a);
-        node_to_bytes(&a, n).expect("node_to_bytes")
+        node_to_bytes_limit(&a, n, usize::MAX).expect("node_to_bytes")
     }
     pub fn hex(&self) -> String {
         hex::encode(self.ser())
@@ -483,6 +483,11 @@ pub struct Out {
     pub distinct: BTreeSet<u64>,
     pub log: Option<std::io::BufWriter<std::fs::File>>,
     pub extra: BTreeMap<String, J>,
+    pub skip: BTreeSet<String>,
+    /// first unit index that still has to be run (non-zero after a restart from a checkpoint)
+    pub resume_from: usize,
+    outdir: String,
+    last_checkpoint: std::time::Instant,
 }
 
 pub struct Cfg {
@@ -510,13 +515,83 @@ impl Cfg {
 
 impl Out {
     pub fn new(id: &str, cfg: &Cfg) -> Out {
+        let mut o = Out::new_fresh(id, cfg);
+        if !cfg.outdir.is_empty() {
+            let p = format!("{}/{}.partial.json", cfg.outdir, cfg.shard);
+            if let Ok(t) = std::fs::read_to_string(&p) {
+                if let Ok(j) = serde_json::from_str::<J>(&t) {
+                    o.load_partial(&j);
+                }
+            }
+        }
+        o
+    }
+
+    fn load_partial(&mut self, j: &J) {
+        if let Some(m) = j["counters"].as_object() {
+            for (k, v) in m {
+                self.counters.insert(k.clone(), v.as_u64().unwrap_or(0));
+            }
+        }
+        if let Some(m) = j["sets"].as_object() {
+            for (k, v) in m {
+                let set: BTreeSet<String> = v.as_array().map(|a| a.iter().filter_map(|x| x.as_str().map(|s| s.to_string())).collect()).unwrap_or_default();
+                self.sets.insert(k.clone(), set);
+            }
+        }
+        self.samples = j["samples"].as_array().cloned().unwrap_or_default();
+        self.violations = j["violations"].as_array().cloned().unwrap_or_default();
+        self.inconclusive = j["inconclusive"].as_array().cloned().unwrap_or_default();
+        if let Some(a) = j["distinct"].as_array() {
+            for x in a {
+                if let Some(s) = x.as_str() {
+                    if let Ok(h) = u64::from_str_radix(s, 16) {
+                        self.distinct.insert(h);
+                    }
+                }
+            }
+        }
+        if let Some(m) = j["extra"].as_object() {
+            for (k, v) in m {
+                self.extra.insert(k.clone(), v.clone());
+            }
+        }
+        self.resume_from = j["next"].as_u64().unwrap_or(0) as usize;
+    }
+
+    fn state_json(&self, complete: bool, next: usize) -> J {
+        let sets: BTreeMap<String, Vec<String>> = self.sets.iter().map(|(k, v)| (k.clone(), v.iter().cloned().collect())).collect();
+        let distinct: Vec<String> = self.distinct.iter().map(|h| format!("{h:016x}")).collect();
+        json!({
+            "id": self.id, "shard": self.shard, "nshards": self.nshards, "seed": self.seed, "tier": self.tier,
+            "counters": self.counters, "sets": sets, "samples": self.samples,
+            "violations": self.violations, "inconclusive": self.inconclusive,
+            "distinct": distinct, "extra": self.extra, "complete": complete, "next": next,
+        })
+    }
+
+    /// Save the state so that a restarted shard continues at unit `next` (at most every 2 s).
+    pub fn checkpoint(&mut self, next: usize) {
+        if self.outdir.is_empty() || self.last_checkpoint.elapsed().as_millis() < 2000 {
+            return;
+        }
+        self.last_checkpoint = std::time::Instant::now();
+        self.flush();
+        let p = format!("{}/{}.partial.json", self.outdir, self.shard);
+        let tmp = format!("{p}.tmp");
+        if std::fs::write(&tmp, serde_json::to_string(&self.state_json(false, next)).unwrap()).is_ok() {
+            let _ = std::fs::rename(&tmp, &p);
+        }
+    }
+
+    fn new_fresh(id: &str, cfg: &Cfg) -> Out {
         let log = if cfg.outdir.is_empty() {
             None
         } else {
             std::fs::create_dir_all(&cfg.outdir).ok();
             let p = format!("{}/{}.events.jsonl", cfg.outdir, cfg.shard);
             Some(std::io::BufWriter::new(
-                std::fs::File::create(p).expect("create event log"),
+                std::fs::OpenOptions::new().create(true).append(true).open(p).expect("open event log"),
             ))
         };
         Out {
@@ -534,6 +609,22 @@ impl Out {
             distinct: BTreeSet::new(),
             log,
             extra: BTreeMap::new(),
+            skip: {
+                let mut sk = BTreeSet::new();
+                if !cfg.outdir.is_empty() {
+                    if let Ok(t) = std::fs::read_to_string(format!("{}/{}.skip", cfg.outdir, cfg.shard)) {
+                        for l in t.lines() {
+                            if !l.trim().is_empty() {
+                                sk.insert(l.trim().to_string());
+                            }
+                        }
+                    }
+                }
+                sk
+            },
+            resume_from: 0,
+            outdir: cfg.outdir.clone(),
+            last_checkpoint: std::time::Instant::now(),
         }
     }
     pub fn count(&mut self, k: &str) {
@@ -565,6 +656,22 @@ impl Out {
             let _ = writeln!(l, "{}", j);
         }
     }
+    /// Mark the start of a case that may hang, abort or exhaust memory.  Returns false when the
+    /// driver asked for this case to be skipped (it killed a previous run of this shard in it).
+    pub fn begin(&mut self, case_id: &str) -> bool {
+        if self.skip.contains(case_id) {
+            self.count("inconclusive.skipped_after_watchdog_or_death");
+            return false;
+        }
+        self.event(&json!({"begin": case_id}));
+        self.flush();
+        WATCH_START_MS.store(now_ms(), std::sync::atomic::Ordering::SeqCst);
+        true
+    }
+    pub fn end(&mut self, case_id: &str) {
+        WATCH_START_MS.store(0, std::sync::atomic::Ordering::SeqCst);
+        self.event(&json!({"end": case_id}));
+    }
     pub fn flush(&mut self) {
         if let Some(l) = self.log.as_mut() {
             let _ = l.flush();
@@ -592,25 +699,56 @@ impl Out {
     }
     pub fn finish(mut self, cfg: &Cfg) {
         self.flush();
-        let sets: BTreeMap<String, Vec<String>> = self
-            .sets
-            .iter()
-            .map(|(k, v)| (k.clone(), v.iter().cloned().collect()))
-            .collect();
-        let distinct: Vec<String> = self.distinct.iter().map(|h| format!("{h:016x}")).collect();
-        let j = json!({
-            "id": self.id, "shard": self.shard, "nshards": self.nshards, "seed": self.seed, "tier": self.tier,
-            "counters": self.counters, "sets": sets, "samples": self.samples,
-            "violations": self.violations, "inconclusive": self.inconclusive,
-            "distinct": distinct, "extra": self.extra, "complete": true,
-        });
+        let j = self.state_json(true, usize::MAX);
         if cfg.outdir.is_empty() {
             println!("{}", serde_json::to_string_pretty(&j).unwrap());
         } else {
             let p = format!("{}/{}.summary.json", cfg.outdir, cfg.shard);
             std::fs::write(&p, serde_json::to_string(&j).unwrap()).expect("write summary");
+            let _ = std::fs::remove_file(format!("{}/{}.partial.json", cfg.outdir, cfg.shard));
         }
     }
+}
+
+// ------------------------------------------------------------------------------------------------
+// In-process watchdog.  A case that runs longer than the limit, or drives the process above the
+// memory limit, ends the process with a distinctive exit code after flushing a marker; the driver
+// restarts the shard with that case on its skip list and reports the case as INCONCLUSIVE (a
+// wall-clock limit is never a verdict).
+
+static WATCH_START_MS: std::sync::atomic::AtomicU64 = std::sync::atomic::AtomicU64::new(0);
+static WATCH_LIMIT_MS: std::sync::atomic::AtomicU64 = std::sync::atomic::AtomicU64::new(0);
+
+fn now_ms() -> u64 {
+    std::time::SystemTime::now().duration_since(std::time::UNIX_EPOCH).unwrap().as_millis() as u64
+}
+
+fn rss_mb() -> u64 {
+    std::fs::read_to_string("/proc/self/statm")
+        .ok()
+        .and_then(|s| s.split_whitespace().nth(1).and_then(|x| x.parse::<u64>().ok()))
+        .map(|pages| pages * 4096 / (1024 * 1024))
+        .unwrap_or(0)
+}
+
+pub fn watchdog_start(limit_s: u64, mem_mb: u64) {
+    use std::sync::atomic::Ordering;
+    WATCH_LIMIT_MS.store(limit_s * 1000, Ordering::SeqCst);
+    std::thread::spawn(move || loop {
+        std::thread::sleep(std::time::Duration::from_millis(250));
+        let st = WATCH_START_MS.load(Ordering::SeqCst);
+        if st != 0 {
+            let lim = WATCH_LIMIT_MS.load(Ordering::SeqCst);
+            if now_ms().saturating_sub(st) > lim {
+                eprintln!("WATCHDOG: case exceeded {} ms", lim);
+                std::process::exit(86);
+            }
+            if rss_mb() > mem_mb {
+                eprintln!("WATCHDOG: process exceeded {} MiB", mem_mb);
+                std::process::exit(87);
+            }
+        }
+    });
 }
 
 pub fn fnv(data: &[u8]) -> u64 {
